@@ -163,13 +163,30 @@ def target_overlaps(work):
 # ----------------------------------------------------------------- token trace -> wire events
 
 def token_groups(trace):
-    """Split js.* events by jobserver.  Returns dict root -> (initial pipe, [wire events])."""
-    owner = {}          # pid -> group root
-    jobowner = {}       # job pid -> group
-    groups = {}
-    for pid, ts, name, a in trace:
+    """Split js.* events by jobserver.  Returns dict root -> [wire events].
+    A child may log its first event before its parent has logged the `js.start` that created it (the hook is
+    after fork()); since a process cannot run before it is forked, such a start event is moved in front of the
+    child's first event."""
+    starts = {}                      # job pid -> index of its js.start event
+    for i, (pid, ts, name, a) in enumerate(trace):
+        if name == "js.start":
+            starts[int(a[0])] = i
+    order, emitted = [], set()
+    for i, e in enumerate(trace):
+        pid, ts, name, a = e
         if not name.startswith("js."):
             continue
+        if i in emitted:
+            continue
+        if name == "js.setup" and a[1] == "inherited":
+            j = starts.get(int(a[2]))
+            if j is not None and j > i and j not in emitted:
+                order.append(trace[j])
+                emitted.add(j)
+        order.append(e)
+        emitted.add(i)
+    owner, jobowner, groups = {}, {}, {}
+    for pid, ts, name, a in order:
         k = name[3:]
         if k == "setup":
             mx, kind, ppid = int(a[0]), a[1], int(a[2])
